@@ -6,6 +6,7 @@ import (
 	"fmt"
 	"math/rand/v2"
 	"runtime"
+	"sort"
 	"strings"
 	"sync"
 	"sync/atomic"
@@ -378,7 +379,33 @@ func stressCase(idx int64, r *rand.Rand) {
 	iters := 300
 	setYields(c.Yields / 10)
 	defer setYields(0)
-	p := build(c)
+	var described fmt.Stringer
+	p := buildWith(c, func(in core.Limiter) core.Limiter {
+		described, _ = in.(fmt.Stringer)
+		return in
+	})
+	stopReaders := make(chan struct{})
+	defer close(stopReaders)
+	if described != nil && r.IntN(2) == 0 {
+		// somebody logs the pool's limiter while it is in use (String / %v): describing a limiter never gets in the way of
+		// its callers
+		for i := 0; i < 2; i++ {
+			go func() {
+				for {
+					select {
+					case <-stopReaders:
+						return
+					default:
+					}
+					if len(described.String()) == 0 {
+						return
+					}
+				}
+			}()
+		}
+		rt.Count("stress_runs_with_the_delegate_being_described", 1)
+		iters = 4000
+	}
 	var holders, maxHolders, progress, refused atomic.Int64
 	var wg sync.WaitGroup
 	for g := 0; g < c.Callers; g++ {
@@ -465,7 +492,23 @@ func stressCase(idx int64, r *rand.Rand) {
 			if stable >= 2 {
 				buf := make([]byte, 1<<20)
 				st := string(buf[:runtime.Stack(buf, true)])
-				inAcq := strings.Count(st, "c19.stressCase.func1")
+				inAcq := 0
+				for _, b := range strings.Split(st, "\n\n") {
+					if strings.Contains(b, "c19.stressCase.func") && (strings.Contains(b, ").Acquire(") || strings.Contains(b, ").OnSuccess(") || strings.Contains(b, ").OnIgnore(") || strings.Contains(b, ").OnDropped(")) {
+						inAcq++ // a worker inside the pool
+					}
+				}
+				if onMutex := rt.BlockedOnLibraryMutex(st); len(onMutex) > 0 && inAcq >= 1 {
+					var frames []string
+					for _, f := range onMutex {
+						frames = append(frames, f)
+					}
+					sort.Strings(frames)
+					rt.Violation("C19/"+name+"/deadlock-on-library-mutex/"+frames[0], idx, rt.J{"config": c, "holders": holders.Load(), "grants_so_far": cur,
+						"workers_inside_the_pool": inAcq, "goroutines_waiting_for_a_library_mutex": frames, "mode": "stress", "stacks": st[:min(len(st), 6000)]})
+					rt.Flush()
+					panic("C19 stress: stuck")
+				}
 				if holders.Load() < int64(c.Limit) && inAcq >= 1 {
 					rt.Violation("C19/"+name+"/callers-stuck-with-capacity-free", idx, rt.J{"config": c, "holders": holders.Load(),
 						"grants_so_far": cur, "workers_alive": inAcq, "mode": "stress", "stacks": st[:min(len(st), 6000)]})
